@@ -47,6 +47,9 @@ func UnmarshalTWKBIDList(twkb []byte) ([]int64, bool, error) {
 	if err != nil {
 		return nil, false, p.annotateError(fmt.Errorf("ID list size uvarint malformed: %w", err))
 	}
+	if err := p.checkCount(numItems); err != nil {
+		return nil, false, p.annotateError(err)
+	}
 
 	if err := p.parseIDList(int(numItems)); err != nil {
 		return nil, false, p.annotateError(err)
@@ -447,6 +450,9 @@ func (p *twkbParser) nextPolygon() (Polygon, error) {
 	if err != nil {
 		return Polygon{}, fmt.Errorf("num rings varint malformed: %w", err)
 	}
+	if err := p.checkCount(numRings); err != nil {
+		return Polygon{}, err
+	}
 	if numRings == 0 {
 		// NewPolygon gives a 2D Polygon when there are no rings, which would
 		// drag a whole MultiPolygon with Z or M values down to 2D.
@@ -502,6 +508,9 @@ func (p *twkbParser) nextMultiPoint() (MultiPoint, error) {
 	if err != nil {
 		return MultiPoint{}, fmt.Errorf("num points varint malformed: %w", err)
 	}
+	if err := p.checkCount(numPoints); err != nil {
+		return MultiPoint{}, err
+	}
 	if p.hasIDs {
 		if err := p.parseIDList(int(numPoints)); err != nil {
 			return MultiPoint{}, err
@@ -529,6 +538,9 @@ func (p *twkbParser) nextMultiLineString() (MultiLineString, error) {
 	numLineStrings, err := p.parseUnsignedVarint()
 	if err != nil {
 		return MultiLineString{}, fmt.Errorf("num linestrings varint malformed: %w", err)
+	}
+	if err := p.checkCount(numLineStrings); err != nil {
+		return MultiLineString{}, err
 	}
 	if p.hasIDs {
 		if err := p.parseIDList(int(numLineStrings)); err != nil {
@@ -558,6 +570,9 @@ func (p *twkbParser) nextMultiPolygon() (MultiPolygon, error) {
 	if err != nil {
 		return MultiPolygon{}, fmt.Errorf("num polygons varint malformed: %w", err)
 	}
+	if err := p.checkCount(numPolygons); err != nil {
+		return MultiPolygon{}, err
+	}
 	if p.hasIDs {
 		if err := p.parseIDList(int(numPolygons)); err != nil {
 			return MultiPolygon{}, err
@@ -586,6 +601,9 @@ func (p *twkbParser) nextGeometryCollection() (GeometryCollection, error) {
 	if err != nil {
 		return GeometryCollection{}, fmt.Errorf("num polygons varint malformed: %w", err)
 	}
+	if err := p.checkCount(numGeoms); err != nil {
+		return GeometryCollection{}, err
+	}
 	if p.hasIDs {
 		if err := p.parseIDList(int(numGeoms)); err != nil {
 			return GeometryCollection{}, err
@@ -612,6 +630,9 @@ func (p *twkbParser) parsePointCountAndArray() ([]float64, int, error) {
 	numPoints, err := p.parseUnsignedVarint()
 	if err != nil {
 		return nil, 0, fmt.Errorf("num points varint malformed: %w", err)
+	}
+	if err := p.checkCount(numPoints); err != nil {
+		return nil, 0, err
 	}
 
 	coords, err := p.parsePointArray(int(numPoints))
@@ -657,6 +678,16 @@ func (p *twkbParser) descaleXY(v int64) float64 {
 		return float64(v) * math.Pow10(-p.precXY)
 	}
 	return float64(v) / p.scalings[0]
+}
+
+// checkCount gives an error if the input cannot hold n more items (each item
+// is at least one byte). Counts come from untrusted input, so they are checked
+// before they are converted to int or anything is allocated based on them.
+func (p *twkbParser) checkCount(n uint64) error {
+	if n > uint64(len(p.twkb)-p.pos) {
+		return fmt.Errorf("count %d exceeds the %d bytes of remaining input", n, len(p.twkb)-p.pos)
+	}
+	return nil
 }
 
 func (p *twkbParser) parseIDList(numIDs int) error {
